@@ -102,6 +102,7 @@ _RESAVE_SEQ = 0
 
 
 _EARLIER = []      # the last few raw results of IndxIO.load, kept alive on purpose
+_NTH = 0
 
 
 def check_case(keys, arrays, common, acc, case=None):
@@ -113,6 +114,16 @@ def check_case(keys, arrays, common, acc, case=None):
     except Exception as e:  # noqa
         acc.violation("save:raised", case, repr(e))
         return
+    global _NTH
+    _NTH += 1
+    if _NTH % 5 == 0 and len(blob) > 17:
+        # a load that fails (the same file cut short - C12 decides that it must fail) followed by the load of the complete file: whatever
+        # the failed attempt left behind in the loader must not show
+        for cut in (len(blob) - 1, 17):
+            try:
+                indx.lib_load_bytes(blob[:cut])
+            except Exception:  # noqa
+                pass
     try:
         out, common_l, dt, kinds, raw = indx.lib_load_bytes(blob)
     except Exception as e:  # noqa
@@ -242,6 +253,8 @@ def run_block(family, p, acc):
 
 
 def replay(case, site=None):
+    global _NTH
+    _NTH = 4      # the replayed case is preceded by the failed loads of its own torn file, as every fifth case of a run is
     from ..core import Acc
 
     acc = Acc(ID, [], stop_at_first=False)
